@@ -12,4 +12,5 @@ import (
 	_ "verif/props/c08"
 	_ "verif/props/c09"
 	_ "verif/props/c10"
+	_ "verif/props/c11"
 )
